@@ -68,7 +68,7 @@ func (s *c12TokSched) Next() (time.Time, bool) {
 func c12Scenario(profile int, cut int) {
 	a := vConcretize(vNondetInt("a", 0, 2))
 	b := vConcretize(vNondetInt("b", 0, 1))
-	vAssume(a+b >= 1)
+	// (a + b may be 0: a startup profile that releases nothing starts nothing)
 	d := time.Duration(vNondetInt("d", 1_000_000, 5_000_000_000))
 	k := int64(1)
 	w := &c12World{}
@@ -98,9 +98,14 @@ func c12Scenario(profile int, cut int) {
 	perInstance := true
 	switch cut {
 	case 1: // ammo runs out: instance start may be cut short
+		vAssume(T >= 1)
 		items = int(vConcretize(vNondetInt("items", 0, int64(T)-1)))
 	case 2: // shared RPS profile finishes: instance start may be cut short
 		perInstance = false
+	case 3: // shared RPS profile with pauses that outlasts the startup profile: nothing may cut it short
+		perInstance = false
+		items = T + 3
+		vAssume(a >= 2 && b == 1)
 	}
 	vSetClock(1_500_000_000_000_000_000)
 	vTimerLateMax(1_000_000_000)
@@ -113,7 +118,13 @@ func c12Scenario(profile int, cut int) {
 		return &c12Gun{hGun: hGun{mu: &w.mu, shots: &w.shots}, w: w}, nil
 	}
 	conf := InstancePoolConfig{ID: "p", Provider: prov, Aggregator: aggr, NewGun: newGun, RPSPerInstance: perInstance,
-		NewRPSSchedule:  func() (core.Schedule, error) { return schedule.NewOnce(k), nil },
+		NewRPSSchedule: func() (core.Schedule, error) {
+			if cut == 3 {
+				// one token now, the last one long after the startup profile ended
+				return schedule.NewComposite(schedule.NewOnce(1), schedule.NewConst(0, 100*d), schedule.NewOnce(1)), nil
+			}
+			return schedule.NewOnce(k), nil
+		},
 		StartupSchedule: &c12TokSched{Schedule: startup, w: w}}
 	metrics := hMetrics()
 	aggr.metrics = &metrics
@@ -136,6 +147,8 @@ func c12Scenario(profile int, cut int) {
 	if cut == 0 {
 		vCheck("I4.all.tokens.become.instances", n == T)
 		vCheck("I5.every.instance.fired.its.profile", w.shots == T*int(k))
+	} else if cut == 3 {
+		vCheck("I4.all.tokens.become.instances.shared.rps.running", n == T)
 	} else {
 		vCheck("I4.at.most.profile", n <= T)
 	}
@@ -154,6 +167,12 @@ func HarnessC12CutBySharedProfile() { c12Scenario(1, 2) }
 // earlier costs scheduling delays), so instances finish their own RPS profile while the startup
 // profile is still waiting for its next token.
 func HarnessC12Nested()           { c12Scenario(4, 0) }
+
+// (not registered: with arbitrary clock jumps between readings the shared profile may legitimately
+// finish before the startup profile, so the count is not determined; the schedule-level harness
+// HarnessC02ConcTwoParts, part of this check, covers "a shared profile reports its end only when it
+// has ended" instead)
+func HarnessC12SharedRPSPauses() { c12Scenario(1, 3) }
 func HarnessC12CompositeLazy()    { vLazyTimers(); c12Scenario(1, 0) }
 func HarnessC12InstanceStepLazy() { vLazyTimers(); c12Scenario(2, 0) }
 func HarnessC12DelayedStartLazy() { vLazyTimers(); c12Scenario(3, 0) }
